@@ -230,9 +230,11 @@ SIZES = (50, 128, 206, 480, 1024, 1476)
 def boundary_lengths(S, tier):
     """octet-string lengths whose encoded service data lies around multiples of the segment size S"""
     totals = set([9, 10])
-    for k in (1, 2, 3, 4):
-        for d in (-1, 0, 1, 2):
-            totals.add(k * S + d)
+    # a segment carries the max-APDU minus its fixed header (3..6 octets, by PDU type and segmentation): multiples of every candidate size
+    for hdr in (0, 3, 4, 5, 6):
+        for k in (1, 2, 3, 4):
+            for d in (-1, 0, 1, 2):
+                totals.add(k * (S - hdr) + d)
     totals.add(4 * S + 2)
     ns = set()
     for t in totals:
